@@ -383,7 +383,15 @@ def main(argv=None):
     # modules whose thorough generator is too heavy for an every-change run declare AMPLIFY = "search":
     # they are amplified by their failing-input search only
     gen_tier = "thorough" if amplified and getattr(mod, "AMPLIFY", "thorough") == "thorough" else args.tier
-    cases = load_corpus(prop) + list(mod.cases(gen_tier, rng))
+    if gen_tier != args.tier:
+        # amplified: the thorough generator, but bounded — a few times the size of the quick run, so that an every-change
+        # run stays an every-change run (the thorough enumeration comes first in every generator, the random tail last)
+        import itertools
+        nquick = sum(1 for _ in mod.cases(args.tier, random.Random(seed * 1000003 + sum(map(ord, prop)))))
+        cap = int(os.environ.get("VERIF_AMPLIFY_FACTOR", "4")) * max(nquick, 2000)
+        cases = load_corpus(prop) + list(itertools.islice(mod.cases(gen_tier, rng), cap))
+    else:
+        cases = load_corpus(prop) + list(mod.cases(gen_tier, rng))
     observed = observe_all(modname, cases, args.jobs)
     harness_errors = [(c, o) for c, o in zip(cases, observed) if isinstance(o, dict) and "__harness_error__" in o]
     if harness_errors:
